@@ -77,7 +77,8 @@ CHECKS = {
         'strict total order extending the zero-trimmed release-tuple order; listings (generic over any total order, instantiated '
         'for generation and release keys) are strictly ascending, contain exactly the distinct inputs and their last element is '
         'the maximum. Correspondence: byte-level Tag round trips on 7 ordinal kinds, Generation.Key/Release.Key validity and '
-        'order on generated PEP 440 strings, Level.Listing, Manifest write/read.',
+        'order on generated PEP 440 strings, Level.Listing, Manifest write/read; packages written as directory or zip with default / '
+        'relative dotted / absolute module maps, installed and their components loaded (oracle only, no model of the import machinery).',
         BASE_NOTE + 'toml, packaging (version parsing), import machinery and zipfile are third-party/runtime: correspondence only; local version segments not modelled.',
         'DESIGN.md section 5 C18',
     ),
@@ -137,7 +138,9 @@ CHECKS = {
         'own counterpart produced; re-training continues from the state at the actor\'s own position; train-only/label actors '
         'are never persistent. Correspondence: histories of train / re-train / apply (latest or explicit generation) / '
         'performance-tracking evaluation through the real Composition.persistent and asset.State machinery, each action in a '
-        'fresh process under another hash seed. The performance-tracking mis-binding of the unchanged code is a listed finding '
+        'fresh process under another hash seed; histories in which the hyper-parameters of the code change between training and '
+        'loading, with actors that restore their own hyper-parameter from the state (judged by the oracle: the current code\'s '
+        'hyper-parameters must win). The performance-tracking mis-binding of the unchanged code is a listed finding '
         'whose exact predicted outcome is matched; anything else is a violation.',
         BASE_NOTE + 'Garbage-collection driven registry edits are runtime behaviour; serving-side binding is exercised under C16.',
         'DESIGN.md section 5 C04',
@@ -249,7 +252,9 @@ CHECKS = {
         'or the complete new item; a commit never touches another generation; numbering is one above every listed generation and a '
         'release is accepted only above every existing version. Correspondence/fault enumeration: histories through the real asset '
         'levels and posix registry; for every commit and publish of the crash-histories the operation is replayed from a snapshot '
-        'with a forked child killed before each file-system primitive and in the middle of each write, then read by a fresh reader.',
+        'with a forked child killed before each file-system primitive and in the middle of each write, then read by a fresh reader; '
+        'histories with more than nine generations and releases crossing 0.9 -> 0.10; histories driven through ONE long-lived writer '
+        'process (one Directory object, its caches) with refused commits (an unstaged state) and their retries, read by another process.',
         BASE_NOTE + 'Process-death semantics only (primitives atomic and durable in program order); volatile/mlflow registries not exercised.',
         'DESIGN.md section 5 C05',
     ),
